@@ -78,6 +78,9 @@ struct HookEvent {
 extern std::vector<HookEvent> hookEvents;
 // the daemon's OomdContext as handed to the scripted plugins (public route to it: no private member of Oomd::Oomd is read)
 extern Oomd::OomdContext* curCtx;
+// IR root and engine handed to the most recent daemon built by make() (captured before ownership moved: no private read)
+extern Oomd::Config2::IR::Root* lastIr;
+extern Oomd::Engine::Engine* lastEngine;
 // hookDecide(hookId, inv, pollIndex) -> true = finished
 extern std::function<bool(const std::string& hook, long inv, int poll)> hookDecide;
 
